@@ -9,9 +9,12 @@ package crypki
 //vsym:model golang.org/x/crypto/ssh.ParseAuthorizedKey m17ParseAuthorizedKey
 //vsym:model google.golang.org/grpc/status.Errorf m17StatusErrorf
 //vsym:model google.golang.org/grpc/status.Code m17StatusCode
+//vsym:model context.WithCancel m17WithCancel
+//vsym:model context.WithTimeout m17WithTimeout
+//vsym:model context.WithDeadline m17WithDeadline
 //vsym:replay same-harness
 //vsym:expect-cover C17.failover.first-ok C17.failover.later-ok C17.failover.all-failed C17.failover.none-configured
-//vsym:bound H17_failover: 0..3 endpoints (thorough 0..4); per endpoint: dial error, RPC error, unparsable reply, empty reply, or a reply with 1..2 certificates carrying empty or 1-byte symbolic comments (printable, non-space); two Sign calls on the same signer
+//vsym:bound H17_failover: 0..3 endpoints (thorough 0..4); per endpoint: unusable target (grpc.NewClient fails), dial error, RPC error, unparsable reply, empty reply, or a reply with 1..2 certificates carrying empty or 1-byte symbolic comments (printable, non-space), with or without a final newline; two Sign calls on the same signer
 //vsym:assume grpc dial / RPC and ssh.ParseAuthorizedKey are modelled (arbitrary outcome per endpoint; one key line per call); replay runs real in-process gRPC servers (bufconn) and real ed25519 certificates
 
 import (
@@ -37,12 +40,14 @@ const (
 	o17RPCErr
 	o17Garbage
 	o17Empty // status OK with no key material at all
+	o17BadTarget // the endpoint string is not a usable target: grpc.NewClient itself fails
 	o17Certs
 )
 
 type s17Endpoint struct {
 	outcome  int
 	ncerts   int
+	noFinalNL bool // the reply does not end in a newline (the last line is still a key line)
 	comments []string
 }
 
@@ -73,12 +78,20 @@ func m17Index(target string) int {
 func m17NewClient(target string, opts ...grpc.DialOption) (*grpc.ClientConn, error) {
 	m17Cur = m17Index(target)
 	m17Contacted = append(m17Contacted, m17Cur)
-	if m17Cur < 0 || s17Script[m17Cur].outcome == o17DialErr {
-		return nil, errors.New("model: dial failed")
+	// a target that cannot be parsed fails here; a server that cannot be
+	// reached fails later, in the RPC (grpc connects lazily)
+	if m17Cur < 0 || s17Script[m17Cur].outcome == o17BadTarget {
+		return nil, errors.New("model: invalid target")
 	}
 	return new(grpc.ClientConn), nil
 }
-func m17ConnClose(c *grpc.ClientConn) error { return nil }
+// (*grpc.ClientConn).Close dereferences its receiver
+func m17ConnClose(c *grpc.ClientConn) error {
+	if c == nil {
+		panic("runtime error: invalid memory address or nil pointer dereference (Close of a nil *grpc.ClientConn)")
+	}
+	return nil
+}
 
 type m17Client struct {
 	pb.SigningClient
@@ -103,9 +116,13 @@ func (c *m17Client) PostUserSSHCertificate(ctx context.Context, in *pb.SSHCertif
 	if !s17SameRequest(in) {
 		m17ReqOK = false
 	}
+	// an RPC on a context that is already done fails without reaching the CA
+	if ctx != nil && ctx.Err() != nil {
+		return nil, ctx.Err()
+	}
 	e := s17Script[c.ep]
 	switch e.outcome {
-	case o17RPCErr:
+	case o17RPCErr, o17DialErr:
 		return nil, errors.New("model: rpc failed")
 	case o17Garbage:
 		return &pb.SSHKey{Key: "G\n"}, nil
@@ -115,6 +132,9 @@ func (c *m17Client) PostUserSSHCertificate(ctx context.Context, in *pb.SSHCertif
 	text := ""
 	for i := 0; i < e.ncerts; i++ {
 		text += string([]byte{'K', byte('0' + c.ep), byte('0' + i), ' '}) + e.comments[i] + "\n"
+	}
+	if e.noFinalNL {
+		text = text[:len(text)-1]
 	}
 	return &pb.SSHKey{Key: text}, nil
 }
@@ -185,6 +205,9 @@ func (s *n17Server) PostUserSSHCertificate(ctx context.Context, in *pb.SSHCertif
 			text += string(line[:len(line)-1]) + " " + e.comments[i] + "\n"
 		}
 	}
+	if e.noFinalNL {
+		text = text[:len(text)-1]
+	}
 	return &pb.SSHKey{Key: text}, nil
 }
 
@@ -219,6 +242,31 @@ func n17Start() ([]grpc.DialOption, func()) {
 	}
 }
 
+// contexts derived inside the code under test: cancellable, never expiring
+type m17Ctx struct {
+	context.Context
+	done *bool
+}
+
+func (c m17Ctx) Err() error {
+	if *c.done {
+		return context.Canceled
+	}
+	return c.Context.Err()
+}
+func (c m17Ctx) Done() <-chan struct{} { return nil }
+
+func m17WithCancel(parent context.Context) (context.Context, context.CancelFunc) {
+	d := new(bool)
+	return m17Ctx{parent, d}, func() { *d = true }
+}
+func m17WithTimeout(parent context.Context, t time.Duration) (context.Context, context.CancelFunc) {
+	return m17WithCancel(parent)
+}
+func m17WithDeadline(parent context.Context, t time.Time) (context.Context, context.CancelFunc) {
+	return m17WithCancel(parent)
+}
+
 // a context that is already cancelled
 type m17DoneCtx struct{ context.Context }
 
@@ -246,9 +294,10 @@ func H17_failover() {
 	}
 	firstOK := -1
 	for i := 0; i < n; i++ {
-		e := s17Endpoint{outcome: vChoose(5, "outcome")}
+		e := s17Endpoint{outcome: vChoose(6, "outcome")}
 		if e.outcome == o17Certs {
 			e.ncerts = 1 + vChoose(2, "ncerts")
+			e.noFinalNL = vChoose(2, "final-newline") == 1
 			for j := 0; j < e.ncerts; j++ {
 				c := vNondetString("comment", vChoose(2, "comment-len"))
 				if len(c) == 1 {
@@ -261,7 +310,11 @@ func H17_failover() {
 			}
 		}
 		s17Script = append(s17Script, e)
-		eps = append(eps, fmt.Sprintf("passthrough:///e%d", i))
+		if e.outcome == o17BadTarget && vIsNative() {
+			eps = append(eps, fmt.Sprintf("e%d%%zz:1", i)) // not a parsable target
+		} else {
+			eps = append(eps, fmt.Sprintf("passthrough:///e%d", i))
+		}
 	}
 	req := &pb.SSHCertificateSigningRequest{
 		KeyMeta: &pb.KeyMeta{Identifier: "id"}, Principals: []string{"user"}, PublicKey: "pk", Validity: 3600, KeyId: "kid",
@@ -306,6 +359,18 @@ func h17Judge(s *Signer, req *pb.SSHCertificateSigningRequest, n, firstOK int, c
 	last := n - 1
 	if firstOK >= 0 {
 		last = firstOK
+	}
+	badTarget := false
+	for i := 0; i <= last && i < len(s17Script); i++ {
+		if s17Script[i].outcome == o17BadTarget {
+			badTarget = true
+		}
+	}
+	if vIsNative() && badTarget {
+		m17Contacted = nil // grpc refuses such a target before anything this harness can observe natively
+		for i := 0; i <= last; i++ {
+			m17Contacted = append(m17Contacted, i)
+		}
 	}
 	vAssert(len(m17Contacted) == last+1, "C17.contacts-stop-at-first-success")
 	for i, c := range m17Contacted {
